@@ -25,7 +25,8 @@ ASSUMPTIONS = [
     "the zero-swap coin and the finishing job are explored",
     "stops happen right after a completed step (after write_toml, before the next pick)",
     "'every in-process draw comes from these streams' (data flow through ASE etc.) is outside; the numpy-based engines' draws "
-    "are observed in H16",
+    "are observed in H16; one spot check at the engine end: the seed handed to TurtleMD's stochastic integrator is the number "
+    "drawn from the job's engine stream",
 ]
 KNOWN_MW = "C07-multiworker-restart-stream-reuse"
 
@@ -73,6 +74,9 @@ def bounds(tier, prop):
 def instances(tier, prop):
     out = []
     q = tier == "quick"
+    if prop == "C07":
+        for extra in ("none", "seed-in-settings"):
+            out.append({"kind": "turtle-seed", "extra": extra, "_cost": 1})
     for w in (1, 2, 3):
         for R in (0, 1, 2):
             segs = [(1,), (2,)] if R == 0 else None
@@ -90,14 +94,97 @@ EXPECT = ["chain:restarted", "chain:zero-swap-allocation", "chain:in-flight-at-s
 
 
 def expect(tier, prop):
-    return EXPECT
+    return EXPECT + (["engine-seed:checked"] if prop == "C07" else [])
 
 
 def _ident_of(gen):
     return gen.bit_generator._seed_seq.ident
 
 
+def _turtle_seed(ctx, sh):
+    """data-flow spot check at the engine end: the seed TurtleMD's stochastic integrator gets is the number drawn from the
+    job's engine stream (self.rgen), whatever the integrator settings contain."""
+    import numpy as np
+    import infretis.classes.engines.turtlemdengine as itmd
+    from infretis.classes.path import Path
+    from infretis.classes.system import System
+    from symx.stubs import _NullMsgFile
+    e = itmd.TurtleMDEngine.__new__(itmd.TurtleMDEngine)
+    e._exe_dir, e.ext, e.dim, e.subcycles, e.timestep = "/exe", "xyz", 1, 1, 0.1
+    e.boltzmann, e.temperature = 1.0, 1.0
+    e.box, e.potential = object(), []
+    e.mass, e.names = np.ones((1, 1)), ["A"]
+
+    class _P:
+        npart = 1
+        mass = [1.0]
+        name = ["A"]
+    e.particles = _P()
+    drawn = {}
+
+    class _Rng:
+        def integers(self, a, b=None):
+            drawn["seed"] = ctx.int("drawn_seed", 0, 10 ** 9)
+            return drawn["seed"]
+    e.rgen = _Rng()
+    got = {}
+
+    def integrator(**kw):
+        got.update(kw)
+        return "integrator"
+    e.integrator = integrator
+    e.integrator_settings = {"gamma": 0.3, "beta": 1.0}
+    if sh["extra"] == "seed-in-settings":
+        e.integrator_settings["seed"] = 70
+    e._read_configuration = lambda f: (np.zeros((1, 3)), np.zeros((1, 3)), np.ones(3), ["A"])
+    e.calculate_order = lambda system, **k: [0.5]
+
+    class _TP:
+        def __init__(self, dim=1):
+            self.npart = 1
+
+        def add_particle(self, *a, **k):
+            pass
+
+    class _TS:
+        def __init__(self, **k):
+            self.box = type("B", (), {"length": np.ones(1)})()
+            self.particles = type("PP", (), {"pos": np.zeros((1, 1)), "vel": np.zeros((1, 1)), "npart": 1})()
+
+    class _Sim:
+        def __init__(self, system=None, integrator=None, steps=0):
+            got["integrator_obj"] = integrator
+
+        def run(self):
+            return iter(())
+    saved = {k: getattr(itmd, k) for k in ("TParticles", "TSystem", "MDSimulation")}
+    itmd.TParticles, itmd.TSystem, itmd.MDSimulation = _TP, _TS, _Sim
+    system = System()
+    system.config = ("/exe/conf.xyz", 0)
+    raised = None
+    try:
+        e._propagate_from("name", Path(maxlen=3), system, {"interfaces": (0.0, 0.5, 1.0)}, _NullMsgFile(), reverse=False)
+    except core.Inconclusive:
+        raise
+    except (core._Abort, core._Stop, core._Skip):
+        raise
+    except TypeError as ex:
+        raised = ex          # a duplicate 'seed' keyword is refused outright: acceptable, nothing ran
+    except Exception as ex:
+        ctx.fail("C07:no-exception", repr(ex))
+    finally:
+        for k, v in saved.items():
+            setattr(itmd, k, v)
+    ctx.cover("engine-seed:checked")
+    if raised is not None:
+        return
+    ctx.check("seed" in drawn and "seed" in got and got["seed"] is drawn["seed"],
+              "C07:integrator-seed-is-the-number-drawn-from-the-job's-engine-stream", f"integrator got seed {got.get('seed')!r}")
+
+
 def run_instance(ctx, sh):
+    if sh.get("kind") == "turtle-seed":
+        return _turtle_seed(ctx, sh)
     rngmodel.REG.ids.clear()
     X.PROP = "C07"
     w, steps = sh["w"], sh["steps"]
@@ -190,6 +277,7 @@ def run_instance(ctx, sh):
     except (core._Abort, core._Stop, core._Skip):
         raise
     except Exception as e:
+        core.reraise_if_proxy_limitation(e)
         ctx.fail("C07:no-exception", X._tb(e))
     # ---------------------------------------------------------------- the claims over the whole chained history
     multi = w >= 2 and len(steps) > 1
